@@ -893,7 +893,9 @@ fn generate_right_ctx_state_char_arms(
 
     // Same as above for range transitions. Use chain of "or"s for ranges with same transition.
     let mut state_ranges: Map<StateIdx, Vec<(char, char)>> = Default::default();
-    let mut accept_ranges: Set<(char, char)> = Default::default();
+    // NB. This needs to be sorted as it's used in binary search tables. Ranges of a `RangeMap`
+    // are sorted and don't overlap, so we just collect them in iteration order.
+    let mut accept_ranges: Vec<(char, char)> = vec![];
 
     for Range {
         start,
@@ -907,7 +909,7 @@ fn generate_right_ctx_state_char_arms(
         if states[next.0].accepting.is_empty() {
             state_ranges.entry(*next).or_default().push((start, end));
         } else {
-            accept_ranges.insert((start, end));
+            accept_ranges.push((start, end));
         }
     }
 
@@ -934,7 +936,7 @@ fn generate_right_ctx_state_char_arms(
 
     if !accept_ranges.is_empty() {
         let guard = if accept_ranges.len() > MAX_GUARD_SIZE {
-            let binary_search_table_id = ctx.add_search_table(accept_ranges.into_iter().collect());
+            let binary_search_table_id = ctx.add_search_table(accept_ranges);
 
             let binary_search_fn = ctx.binary_search_fn_ident();
             quote!(#binary_search_fn(x, &#binary_search_table_id))
